@@ -411,6 +411,11 @@ def run(run):
             run.guard('request writers', request_writers, run, F, E)
             run.guard('request slot writers', request_slot_writers, run, F, E)
             run.guard('leftover request survives', leftover_request_survives, run, F, E)
+            # "not cancelled by a guard" is what the guard wrappers report: a cancellation by any of the callbacks a wrapper runs (injected
+            # guards included) is reported as a new cancellation (shares the C03.e evaluation of the wrappers)
+            from rules import c03 as _c03
+            run.guard('wrappers', _c03.wrappers, run, F, E)
+            run.relabel('C03.e', 'C02.j')
             run.guard('requested writers', requested_writers, run, F, E)
             run.guard('immediate', immediate, run, F, E)
             run.guard('drop condition', drop_condition, run, F)
@@ -435,6 +440,7 @@ def run(run):
     run.relabel('C04.a', 'C02.h')
     run.floor('C02.h', 30)
     run.floor('C02.i', 8)
+    run.floor('C02.j', 20)
     run.floor('C02.a', 60)
     run.floor('C02.g', 30)
     run.floor('C02.b', 40)
